@@ -7,8 +7,9 @@
      plan cmds fl ps      the position-free pass: the moves the commands stand for (prefixes, scale,
                           colour, X nesting resolved), where the statement stops, final scale/colour
      pen_after p ms       walk the moves from p;  segs_of p ms  the lines of the moves that draw
-   "Without angle turning": the angle is 0 and the string has no A / TA (angle_free).  A and TA use floats
-   (except 0/180/360, which the model follows and the harness tests) and are excluded by the property. *)
+   Angles: A n and TA 0/90/180/270/360 are followed exactly (`turned`); a move under any other TA angle ends
+   with status Excluded (sin/cos in floating point: the "angle turning" the property excludes).
+   The pen theorems are for strings without P (`paint_free`); P has its own theorem C33_paint. *)
 From Coq Require Import ZArith List Bool.
 From PCB Require Import lib.PyInt gen.Gen_draw model.Draw proofs.Draw_proofs proofs.Draw_parse_proofs.
 Import ListNotations.
@@ -16,37 +17,40 @@ Open Scope Z_scope.
 
 (* ---- final pen position -------------------------------------------------------------------------- *)
 
-(* for every command list: the statement ends (normally or with the error) where the plan says, the pen
-   is where walking the planned moves from the start position leads, scale and colour persist *)
+(* for every command list without P, from every state in a graphics mode (any angle): the statement ends
+   (normally, with the error, or - status Excluded - at a move under a TA angle that is not a multiple of
+   90) where the plan says, the pen is where walking the planned moves from the start position leads,
+   scale, colour and angle persist *)
 Theorem C33_final_pos : forall g cmds,
-  g_text g = false -> g_angle g = 0 -> angle_free cmds = true ->
+  g_text g = false -> paint_free cmds = true ->
   let r := draw g cmds in
-  let pl := plan cmds fresh (mkP (g_scale g) (g_attr g) (g_nattr g)) in
+  let pl := plan cmds fresh (pst_of_g g) in
   dr_status r = pl_status pl
   /\ current (dr_state r) = pen_after (current g) (pl_moves pl)
-  /\ dr_segs r = segs_of (current g) (pl_moves pl)
+  /\ dr_reqs r = map RLine (segs_of (current g) (pl_moves pl))
   /\ g_scale (dr_state r) = p_scale (pl_pst pl) /\ g_attr (dr_state r) = p_attr (pl_pst pl)
-  /\ g_angle (dr_state r) = 0.
+  /\ g_angle (dr_state r) = p_angle (pl_pst pl).
 Proof. exact draw_plan. Qed.
 Print Assumptions C33_final_pos.
 
 (* what the planned moves are: U D L R E F G H n and relative M contribute (scale * d) quot 4 per
-   coordinate (truncation toward zero), absolute M its target; B clears `plot`, N sets `back`, both are
-   used up by the next move; S and C change scale / colour for what follows (C n selects n brought into
-   the attribute range of the mode, as the other graphics statements do); X runs the substring with
-   prefixes of its own *)
+   coordinate (truncation toward zero), turned by the angle in force; absolute M its target (not turned, not
+   scaled); B clears `plot`, N sets `back`, both are used up by the next move; S, C, A, TA change scale /
+   colour / angle for what follows (C n selects n brought into the attribute range of the mode, as the other
+   graphics statements do); X runs the substring with prefixes of its own *)
 Theorem C33_move_offsets : forall l fl ps,
-  (forall d n, in_range (-99999, 99999) n = true ->
+  (forall d n o, in_range (-99999, 99999) n = true ->
+     turned (p_angle ps) (p_aspect ps)
+            (Z.quot (p_scale ps * (n * fst (unit d))) 4, Z.quot (p_scale ps * (n * snd (unit d))) 4) = Some o ->
      plan (Move d n :: l) fl ps =
      (pl_pst (plan l fresh ps),
-      mkmove false (Z.quot (p_scale ps * (n * fst (unit d))) 4, Z.quot (p_scale ps * (n * snd (unit d))) 4)
-             (fst fl) (snd fl) (p_attr ps) :: pl_moves (plan l fresh ps),
+      mkmove false o (fst fl) (snd fl) (p_attr ps) :: pl_moves (plan l fresh ps),
       pl_status (plan l fresh ps)))
-  /\ (forall x y, in_range (-9999, 9999) x && in_range (-9999, 9999) y = true ->
+  /\ (forall x y o, in_range (-9999, 9999) x && in_range (-9999, 9999) y = true ->
+     turned (p_angle ps) (p_aspect ps) (Z.quot (p_scale ps * x) 4, Z.quot (p_scale ps * y) 4) = Some o ->
      plan (MRel x y :: l) fl ps =
      (pl_pst (plan l fresh ps),
-      mkmove false (Z.quot (p_scale ps * x) 4, Z.quot (p_scale ps * y) 4) (fst fl) (snd fl) (p_attr ps)
-        :: pl_moves (plan l fresh ps),
+      mkmove false o (fst fl) (snd fl) (p_attr ps) :: pl_moves (plan l fresh ps),
       pl_status (plan l fresh ps)))
   /\ (forall x y, in_range (-9999, 9999) x && in_range (-9999, 9999) y = true ->
      plan (MAbs x y :: l) fl ps =
@@ -55,10 +59,11 @@ Theorem C33_move_offsets : forall l fl ps,
       pl_status (plan l fresh ps)))
   /\ plan (PreB :: l) fl ps = plan l (false, snd fl) ps
   /\ plan (PreN :: l) fl ps = plan l (fst fl, true) ps
-  /\ (forall n, in_range (1, 255) n = true ->
-        plan (SetScale n :: l) fl ps = plan l fl (mkP n (p_attr ps) (p_nattr ps)))
+  /\ (forall n, in_range (1, 255) n = true -> plan (SetScale n :: l) fl ps = plan l fl (set_p_scale ps n))
   /\ (forall n, in_range (-99999, 99999) n = true ->
-        plan (SetColour n :: l) fl ps = plan l fl (mkP (p_scale ps) (clamp_attr (p_nattr ps) n) (p_nattr ps)))
+        plan (SetColour n :: l) fl ps = plan l fl (set_p_attr ps (clamp_attr (p_nattr ps) n)))
+  /\ (forall n, in_range (0, 3) n = true -> plan (SetAngle n :: l) fl ps = plan l fl (set_p_angle ps (90 * n)))
+  /\ (forall n, in_range (-360, 360) n = true -> plan (TurnAngle n :: l) fl ps = plan l fl (set_p_angle ps n))
   /\ (forall name body, pl_status (plan body fresh ps) = Done ->
         plan (Sub name body :: l) fl ps =
         (pl_pst (plan l fl (pl_pst (plan body fresh ps))),
@@ -66,16 +71,38 @@ Theorem C33_move_offsets : forall l fl ps,
          pl_status (plan l fl (pl_pst (plan body fresh ps))))).
 Proof.
   intros l fl ps.
-  split; [intros d n H; exact (plan_move d n l fl ps H)|].
-  split; [intros x y H; exact (plan_mrel x y l fl ps H)|].
+  split; [intros d n o H Ht; exact (plan_move d n l fl ps o H Ht)|].
+  split; [intros x y o H Ht; exact (plan_mrel x y l fl ps o H Ht)|].
   split; [intros x y H; exact (plan_mabs x y l fl ps H)|].
   split; [exact (plan_prefix_B l fl ps)|].
   split; [exact (plan_prefix_N l fl ps)|].
   split; [intros n H; exact (plan_scale n l fl ps H)|].
   split; [intros n H; exact (plan_colour n l fl ps H)|].
+  split; [intros n H; exact (plan_angle n l fl ps H)|].
+  split; [intros n H; exact (plan_turn n l fl ps H)|].
   intros name body H; exact (plan_sub name body l fl ps H).
 Qed.
 Print Assumptions C33_move_offsets.
+
+(* the turns.  What the code computes for the quarter turns is not a plain integer rotation: it swaps the
+   coordinates and scales by the pixel aspect ratio yfac = float(aspect[1])/float(aspect[0]) (1.2 in SCREEN
+   1 and 7, 2.4 in SCREEN 2 and 8, 48/35 in SCREEN 9, as doubles): x' = int(y*yfac) (correctly rounded
+   double product, truncated), y' = -int(x//yfac) (exact floor of the quotient by the double).  `mul_trunc`,
+   `floor_div`, `yfac` are these double operations on integers (model/Draw.v section 0, tied to the host's
+   doubles by correspondence).  Every angle A can set is a right angle; TA values that are not are outside
+   (`turned` = None, status Excluded): they go through sin/cos *)
+Theorem C33_turns : forall asp v,
+  turned 0 asp v = Some v /\ turned 360 asp v = Some v
+  /\ turned 90 asp v = Some (mul_trunc (snd v) (yfac asp), - floor_div (fst v) (yfac asp))
+  /\ turned 180 asp v = Some (- fst v, - snd v)
+  /\ turned 270 asp v = Some (- mul_trunc (snd v) (yfac asp), floor_div (fst v) (yfac asp))
+  /\ (forall a, right_angle a = true -> turned a asp v <> None)
+  /\ (forall n, in_range (0, 3) n = true -> right_angle (90 * n) = true).
+Proof.
+  intros asp v. destruct (turned_cases asp v) as (H0 & H1 & H2 & H3 & H4).
+  repeat split; try assumption; [intros a H; exact (turned_right a asp v H) | exact set_angle_right].
+Qed.
+Print Assumptions C33_turns.
 
 (* walking the moves = start + sum of the offsets, with the B/N/absolute-M rules:
    - no absolute move that stays: start + sum of the offsets of the moves not undone by N;
@@ -99,29 +126,30 @@ Print Assumptions C33_sum_of_offsets.
    position before a move to the target of the move, for the moves that draw (no B), in order, with the
    colour in force; the position before move i is the pen after the first i moves *)
 Theorem C33_segments : forall g cmds,
-  g_text g = false -> g_angle g = 0 -> angle_free cmds = true ->
-  let ms := pl_moves (plan cmds fresh (mkP (g_scale g) (g_attr g) (g_nattr g))) in
-  dr_segs (draw g cmds) =
-    map (fun qm => mkseg (fst qm) (target (fst qm) (snd qm)) (m_attr (snd qm)))
+  g_text g = false -> paint_free cmds = true ->
+  let ms := pl_moves (plan cmds fresh (pst_of_g g)) in
+  dr_reqs (draw g cmds) =
+    map (fun qm => RLine (mkseg (fst qm) (target (fst qm) (snd qm)) (m_attr (snd qm))))
         (filter (fun qm => m_plot (snd qm)) (combine (positions (current g) ms) ms))
   /\ length (positions (current g) ms) = length ms
   /\ forall i, (i < length ms)%nat ->
        nth i (positions (current g) ms) (0, 0) = pen_after (current g) (firstn i ms).
 Proof.
-  intros g cmds Ht Ha Haf ms.
+  intros g cmds Ht Haf ms.
   split; [|split; [exact (positions_length (current g) ms) | exact (positions_nth ms (current g))]].
-  destruct (draw_plan g cmds Ht Ha Haf) as (_ & _ & Hs & _). fold ms in Hs. rewrite Hs.
-  exact (segs_of_positions ms (current g)).
+  destruct (draw_plan g cmds Ht Haf) as (_ & _ & Hs & _). fold ms in Hs. rewrite Hs.
+  rewrite (segs_of_positions ms (current g)), map_map. reflexivity.
 Qed.
 Print Assumptions C33_segments.
 
-(* the colour of every requested segment is an attribute of the mode (so the pixel write is in range) and
-   so is the colour left for later statements, whatever number C was given within +-99999 *)
+(* the colour of every requested line and both colours of every requested fill are attributes of the mode (so
+   no pixel write is out of range) and so is the colour left for later statements, whatever numbers C and P
+   were given *)
 Theorem C33_colours : forall g cmds,
   0 <= g_attr g < g_nattr g ->
   0 <= g_attr (dr_state (draw g cmds)) < g_nattr g
   /\ g_nattr (dr_state (draw g cmds)) = g_nattr g
-  /\ Forall (fun s => 0 <= s_attr s < g_nattr g) (dr_segs (draw g cmds)).
+  /\ Forall (req_attr_ok (g_nattr g)) (dr_reqs (draw g cmds)).
 Proof. exact draw_attr. Qed.
 Print Assumptions C33_colours.
 
@@ -182,9 +210,40 @@ Theorem C33_range_errors : forall fl st,
   /\ (forall x y, in_range (-9999, 9999) x && in_range (-9999, 9999) y = false ->
         exec (MRel x y) fl st = (fl, st, [], Raised 5) /\ exec (MAbs x y) fl st = (fl, st, [], Raised 5))
   /\ (forall n, in_range (1, 255) n = false -> exec (SetScale n) fl st = (fl, st, [], Raised 5))
-  /\ (forall n, in_range (-99999, 99999) n = false -> exec (SetColour n) fl st = (fl, st, [], Raised 5)).
+  /\ (forall n, in_range (-99999, 99999) n = false -> exec (SetColour n) fl st = (fl, st, [], Raised 5))
+  /\ (forall n, in_range (0, 3) n = false -> exec (SetAngle n) fl st = (fl, st, [], Raised 5))
+  /\ (forall n, in_range (-360, 360) n = false -> exec (TurnAngle n) fl st = (fl, st, [], Raised 5)).
 Proof. exact range_errors. Qed.
 Print Assumptions C33_range_errors.
+
+(* ---- P ------------------------------------------------------------------------------------------- *)
+
+(* P fill,border with both numbers in 0..9999, no WINDOW, the pen within 16 bits: exactly one flood-fill
+   request, seeded at the pen, with both numbers brought into the attributes of the mode; pen, prefixes,
+   scale and angle are untouched.  What the fill finds there (an input of the model: 0 seed outside the
+   viewport, 1 seed on the border colour, otherwise it fills) decides whether the last point becomes the
+   pen and whether the fill colour becomes the current colour.  Numbers out of range: Illegal function
+   call; pen beyond 16 bits: Overflow.  (With a WINDOW the seed goes through floats: outside the model.) *)
+Theorem C33_paint : forall st fl f b,
+  (forall o os, in_range (0, 9999) f = true -> in_range (0, 9999) b = true -> d_window st = false ->
+     in_int16 (fst (d_pen st)) && in_int16 (snd (d_pen st)) = true -> d_outcomes st = o :: os ->
+     exists st', exec (Paint f b) fl st =
+                 (fl, st', [RPaint (d_pen st) (attr_index (d_nattr st) f) (attr_index (d_nattr st) b)], Done)
+       /\ d_pen st' = d_pen st /\ d_scale st' = d_scale st /\ d_angle st' = d_angle st /\ d_outcomes st' = os
+       /\ d_attr st' = (if (o =? 0) || (o =? 1) then d_attr st else attr_index (d_nattr st) f)
+       /\ d_last st' = (if o =? 0 then d_last st else d_pen st))
+  /\ (in_range (0, 9999) f && in_range (0, 9999) b = false -> exec (Paint f b) fl st = (fl, st, [], Raised 5))
+  /\ (in_range (0, 9999) f && in_range (0, 9999) b = true -> d_window st = false ->
+      in_int16 (fst (d_pen st)) && in_int16 (snd (d_pen st)) = false ->
+      exec (Paint f b) fl st = (fl, st, [], Raised 6))
+  /\ (1 <= d_nattr st -> 0 <= f -> attr_index (d_nattr st) f = clamp_attr (d_nattr st) f).
+Proof.
+  intros st fl f b.
+  split; [intros o os H1 H2 H3 H4 H5; exact (paint_request st fl f b o os H1 H2 H3 H4 H5)|].
+  destruct (paint_errors st fl f b) as [E1 E2].
+  split; [exact E1|]. split; [exact E2|]. exact (attr_index_clamp (d_nattr st) f).
+Qed.
+Print Assumptions C33_paint.
 
 (* DRAW in a text mode: Illegal function call, nothing changes *)
 Theorem C33_text_mode : forall g cmds, g_text g = true -> draw g cmds = (g, [], Raised 5).
@@ -201,23 +260,31 @@ Print Assumptions C33_scaling_exact.
 
 (* ---- non-vacuity --------------------------------------------------------------------------------- *)
 
-(* SCREEN 1 start state; "S8 U10 BR5 NE4 M+2,-3 XS$; M100,50 L7" with S$ = "C2 nd3": hypotheses hold, the
-   statement ends normally, pen = (86,50), POINT(0)/POINT(1) report it, the B move draws nothing, the N
-   moves return *)
+(* SCREEN 1 start state (aspect 800:960, yfac 1.2); "S8 U10 BR5 NE4 M+2,-3 XS$; M100,50 L7 A1 R10 TA270 F5"
+   with S$ = "C2 nd3": hypotheses hold, the statement ends normally, pen = (74,42), POINT(0)/POINT(1) report it,
+   the B move draws nothing, the N moves return, R10 under A1 goes up by floor(20/1.2) = 16, F5 under TA270
+   goes (-12, +8); with " P1,3" appended and a fill that succeeds, one request at the pen and colour 1 *)
 Example C33_nonvacuous :
-  let g := mkG None (160, 100) false 4 0 3 false 4 in
+  let g := mkG None (160, 100) false 4 0 3 false 4 (800, 960) [2] in
   let e : env := [([83; 36], VStr [67; 50; 32; 110; 100; 51])] in
   let s := [83; 56; 32; 85; 49; 48; 32; 66; 82; 53; 32; 78; 69; 52; 32; 77; 43; 50; 44; 45; 51; 32;
-            88; 83; 36; 59; 32; 77; 49; 48; 48; 44; 53; 48; 32; 76; 55] in
+            88; 83; 36; 59; 32; 77; 49; 48; 48; 44; 53; 48; 32; 76; 55; 32; 65; 49; 32; 82; 49; 48; 32;
+            84; 65; 50; 55; 48; 32; 70; 53] in
   let cmds := parse 2 e s in
   let r := draw_string 2 e g s in
-  g_text g = false /\ g_angle g = 0 /\ angle_free cmds = true
+  let r2 := draw_string 2 e g (s ++ [32; 80; 49; 44; 51]) in
+  g_text g = false /\ paint_free cmds = true
   /\ cmds = [SetScale 8; Move DU 10; PreB; Move DR 5; PreN; Move DE 4; MRel 2 (-3);
-             Sub [83; 36] [SetColour 2; PreN; Move DD 3]; MAbs 100 50; Move DL 7]
-  /\ dr_status r = Done /\ current (dr_state r) = (86, 50)
-  /\ point_fn (dr_state r) 0 = 86 /\ point_fn (dr_state r) 1 = 50 /\ g_last (dr_state r) = (86, 50)
-  /\ dr_segs r = [mkseg (160, 100) (160, 80) 3; mkseg (170, 80) (178, 72) 3; mkseg (170, 80) (174, 74) 3;
-                  mkseg (174, 74) (174, 80) 2; mkseg (174, 74) (100, 50) 2; mkseg (100, 50) (86, 50) 2].
+             Sub [83; 36] [SetColour 2; PreN; Move DD 3]; MAbs 100 50; Move DL 7; SetAngle 1; Move DR 10;
+             TurnAngle 270; Move DF 5]
+  /\ dr_status r = Done /\ current (dr_state r) = (74, 42)
+  /\ point_fn (dr_state r) 0 = 74 /\ point_fn (dr_state r) 1 = 42 /\ g_last (dr_state r) = (74, 42)
+  /\ g_angle (dr_state r) = 270
+  /\ dr_reqs r = map RLine
+                 [mkseg (160, 100) (160, 80) 3; mkseg (170, 80) (178, 72) 3; mkseg (170, 80) (174, 74) 3;
+                  mkseg (174, 74) (174, 80) 2; mkseg (174, 74) (100, 50) 2; mkseg (100, 50) (86, 50) 2;
+                  mkseg (86, 50) (86, 34) 2; mkseg (86, 34) (74, 42) 2]
+  /\ dr_status r2 = Done /\ dr_reqs r2 = dr_reqs r ++ [RPaint (74, 42) 1 3] /\ g_attr (dr_state r2) = 1.
 Proof. vm_compute. repeat split; reflexivity. Qed.
 
 (* the printer side is inhabited too: a spaced, lower-case, signed, zero-padded text with a variable *)
